@@ -32,6 +32,9 @@ func scaleCases(tier string) []scalekit.Case {
 	for _, n := range scale.Sizes(40, 129) {
 		out = append(out, scalekit.Case{Shape: "grouping-chain", N: n})
 	}
+	for _, n := range scale.Sizes(48, 257) {
+		out = append(out, scalekit.Case{Shape: "many-uses", N: n})
+	}
 	return out
 }
 
@@ -108,6 +111,58 @@ func checkScale(cs scalekit.Case) scalekit.Verdict {
 			sortStrings(ks)
 			if strings.Join(ks, " ") != want {
 				return scalekit.Bad("uses-binds-another-grouping", c+": "+want, strings.Join(ks, " "))
+			}
+		}
+	case "many-uses":
+		// n uses in each of two modules, then a deviation of one copy: every copy equals the first,
+		// no two share a node, and only the deviated one changes
+		dev := dump.File{Name: "dev.yang", Text: fmt.Sprintf(`module dev { yang-version 1.1; namespace "urn:dev"; prefix dev; import a { prefix a; } import b { prefix b; } deviation /a:u%d/a:gll { deviate add { default added; } } deviation /b:v%d/b:gc/b:gli { deviate replace { max-elements 2; } } }`, cs.N/2, cs.N-1)}
+		files := append(scale.ManyUses(cs.N), dev)
+		ms, errs, lerr := scalekit.Load(files, false)
+		if lerr != nil || len(errs) > 0 {
+			return scalekit.Bad("spurious-errors", "loads and processes", fmt.Sprint(lerr, dump.Errors(errs)))
+		}
+		a, b := yang.ToEntry(ms.Modules["a"]), yang.ToEntry(ms.Modules["b"])
+		seen := map[*yang.Entry]string{}
+		var ref string
+		for i := 0; i < cs.N; i++ {
+			for _, x := range []struct {
+				root *yang.Entry
+				name string
+			}{{a, fmt.Sprintf("u%d", i)}, {b, fmt.Sprintf("v%d", i)}} {
+				c := x.root.Dir[x.name]
+				if c == nil {
+					return scalekit.Bad("copy-missing", x.name, "nil")
+				}
+				var walk func(e *yang.Entry) string
+				walk = func(e *yang.Entry) string {
+					if prev, dup := seen[e]; dup {
+						return "SHARED with " + prev
+					}
+					seen[e] = x.name
+					for _, k := range e.Dir {
+						if r := walk(k); r != "" {
+							return r
+						}
+					}
+					return ""
+				}
+				if r := walk(c); r != "" {
+					return scalekit.Bad("copies-share-a-node", "distinct objects", x.name+": "+r)
+				}
+				sh := strings.Replace(shape(c), x.name+" ", "U ", 1)
+				sh += fmt.Sprintf("defaults=%v max=%d", c.Dir["gll"].Default, c.Dir["gc"].Dir["gli"].ListAttr.MaxElements)
+				deviated := (x.root == a && i == cs.N/2) || (x.root == b && i == cs.N-1)
+				switch {
+				case ref == "" && !deviated:
+					ref = sh
+				case !deviated && sh != ref:
+					return scalekit.Bad("copy-differs-from-the-others", ref, x.name+": "+sh)
+				case deviated && x.root == a && fmt.Sprint(c.Dir["gll"].Default) != "[x y z added]":
+					return scalekit.Bad("deviation-of-one-copy-lost", "[x y z added]", fmt.Sprint(c.Dir["gll"].Default))
+				case deviated && x.root == b && c.Dir["gc"].Dir["gli"].ListAttr.MaxElements != 2:
+					return scalekit.Bad("deviation-of-one-copy-lost", "max-elements 2", fmt.Sprint(c.Dir["gc"].Dir["gli"].ListAttr.MaxElements))
+				}
 			}
 		}
 	case "grouping-chain":
